@@ -41,6 +41,8 @@ def abstract(mesh, scale):
     kind = kind_of(mesh)
     nv = NVERT[kind]
     nvert = int(np.max(mesh.t[:nv])) + 1
+    if type(mesh).__name__ in ('MeshLine1', 'MeshTri1', 'MeshQuad1', 'MeshTet1', 'MeshHex1', 'MeshWedge1'):
+        nvert = mesh.p.shape[1]                    # first order: every point is a vertex (possibly unused)
     q = np.asarray(mesh.p[:, :nvert], dtype=np.float64) * scale
     r = np.rint(q)
     if not np.array_equal(q, r) or (np.abs(r) > 1024).any():
@@ -141,7 +143,8 @@ def execute(rec, timeout=30):
               'warned_b': int(any('boundaries' in r for r in cap.records)),
               'pre': EMPTY, 'post': EMPTY}
         if not err:
-            sc = find_scale(m2.p[:, :int(np.max(m2.t[:NVERT[kind_of(m2)]])) + 1])
+            sc = find_scale(m2.p[:, :int(np.max(m2.t[:NVERT[kind_of(m2)]])) + 1]
+                            if type(m2).__name__.endswith('2') else m2.p)
             pre = abstract(m, sc) if sc else None
             post = abstract(m2, sc) if sc else None
             if pre is None or post is None:
